@@ -298,6 +298,20 @@ def work(shard, rec):
                 for bg2_in, bg2_rgb in ((None, (255, 255, 255)), gen_bg(rnd), gen_bg(rnd), (None, (255, 255, 255)), (bg_in, bg_rgb)):
                     judge(rec, parse, lib.Color if i % 8 == 0 else None, s, name, bg2_in, bg2_rgb)
                     rec.count("same_string_other_background")
+                # ... and over a background *object* built from the very same string (text and background written identically):
+                # the text is composited over what that background denotes (itself over white), not taken over from it
+                try:
+                    ref = csscolor.parse(s)
+                    cb = lib.Color(s)
+                    if ref.alpha != 1 and cb.is_valid:
+                        ct = lib.Color(s, background_context=cb)
+                        exact = csscolor.blend(ref.rgb, ref.alpha, cb.rgb)
+                        rec.count("same_value_as_background_checked")
+                        if ct.rgb is None or max(abs(float(e) - g) for e, g in zip(exact, ct.rgb)) > BLEND_TOL:
+                            rec.violation(f"Color({s!r}, background_context=Color({s!r})).rgb = {ct.rgb}; the background denotes {cb.rgb}, exact blend over it "
+                                          f"{tuple(round(float(e), 3) for e in exact)}", {"fn": "self_bg", "s": s})
+                except csscolor.NotCSS:
+                    pass
             if i % 5 == 0 and got is not None:
                 # equivalent spellings: case, whitespace
                 inner = s.strip(" \t\n\r\f")
@@ -325,6 +339,15 @@ def replay(case):
         name = csscolor.parse(case["s"]).kind
         got = judge(rec, parse, lib.Color, case["s"], name, bg_in, bg_rgb)
         print(f"parse_color_to_rgb({case['s']!r}, background={bg_in!r}) = {got}; reference {csscolor.parse(case['s'])}")
+    elif case["fn"] == "self_bg":
+        s = case["s"]
+        ref = csscolor.parse(s)
+        cb = lib.Color(s)
+        ct = lib.Color(s, background_context=cb)
+        exact = csscolor.blend(ref.rgb, ref.alpha, cb.rgb)
+        print(f"Color({s!r}).rgb = {cb.rgb}; Color({s!r}, background_context=that).rgb = {ct.rgb}; exact blend {tuple(round(float(e), 3) for e in exact)}")
+        if ct.rgb is None or max(abs(float(e) - g) for e, g in zip(exact, ct.rgb)) > BLEND_TOL:
+            rec.violation("text composited over the wrong colour", case)
     elif case["fn"] == "equiv":
         equiv(rec, parse, case["variants"], "replay")
     else:
